@@ -3,7 +3,7 @@
 From Coq Require Import List Bool Arith String.
 Import ListNotations.
 From Mv Require Import Model.Entry Model.Reconcile Model.Safety Model.Controller Model.ControllerCheck
-     Proof.Safety Proof.ControllerBase Proof.ControllerHalt Proof.Controller.
+     Proof.Safety Proof.ControllerBase Proof.ControllerHalt Proof.ControllerSound Proof.Controller.
 Local Open Scope list_scope.
 
 (* oneEndpointEmptiedRoot fires exactly when all three are directories, the
@@ -86,6 +86,37 @@ Theorem c11_no_propagation : forall md manual sched st tr,
   run (init_state md manual) sched = Some (st, tr) -> check_halt md tr = true.
 Proof. exact run_halt. Qed.
 
+(* what passing the halt monitor means. It starts expecting the halted
+   behaviour exactly when the second scan of a cycle has returned, the check
+   sequence yields a halt on the ancestor given to the scans and the two
+   returned contents, and no lifecycle command is active ... *)
+Theorem c11_halt_arming : forall md m s r c m' k n,
+  hmon_step md m (Sx s true r c) = Some m' -> h_halt m = None -> h_halt m' = Some (k, n) ->
+  n = 0 /\ any_active is_lifecycle (h_act m) = false /\
+  exists ca cb, safety_verdict md (h_anc m) ca cb = Some k /\
+                ((s = Alpha /\ ca = c /\ h_rb m = SOk cb) \/ (s = Beta /\ cb = c /\ h_ra m = SOk ca)).
+Proof. exact halt_arming. Qed.
+
+(* ... and from then on, as long as no lifecycle command is called and no new
+   manager is created, every accepted endpoint event is the entry or exit of
+   Shutdown (no Stage, Supply, Transition, Scan, Poll, Connect), and a status
+   observed after both shutdowns returned is the Halted status of that check *)
+Theorem c11_halt_sound : forall md tr m m' k shut,
+  mon_run (hmon_step md) m tr = Some m' -> h_halt m = Some (k, shut) ->
+  (forall t c, In (Ca t c) tr -> is_lifecycle c = false) -> (forall l, ~ In (Nm l) tr) ->
+  (exists shut', h_halt m' = Some (k, shut') /\ shut <= shut') /\
+  (forall e, In e tr -> is_endpoint e = true -> is_shutdown_event e = true) /\
+  (forall st, In (ObT true (Some st)) tr -> 2 <= shut -> st = halt_status k).
+Proof. exact halt_sound. Qed.
+
+(* the hypotheses are satisfiable: a schedule on which the emptied-root check
+   fires (second cycle, after the ancestor was saved by the first) *)
+Example c11_example_halting_run :
+  exists st tr, run (init_state TwoWaySafe false) halting_schedule = Some (st, tr)
+                /\ In (IHalt HaltEmptied) tr /\ status st = 1 /\ option_map lp (loop st) = Some LHalted
+                /\ arch_file st = Some two_files /\ check_halt TwoWaySafe tr = true.
+Proof. exact halting_example. Qed.
+
 (* the hypotheses are satisfiable on non-trivial states *)
 Example c11_example_emptied :
   one_endpoint_emptied_root
@@ -109,5 +140,7 @@ Print Assumptions c11_subset_iff.
 Print Assumptions c11_covers.
 Print Assumptions c11_covers_verdict.
 Print Assumptions c11_no_propagation.
+Print Assumptions c11_halt_arming.
+Print Assumptions c11_halt_sound.
 Print Assumptions c11_check_pred_sound.
 Print Assumptions c11_check_pred_model.
